@@ -782,7 +782,9 @@ MANIFEST = {
                   'formats, load (save d) succeeds, remembers the format and returns a document with the same version, the same identifiers with '
                   'every object in normal form (an integral real becomes the integer, nothing else changes) and the same trailer apart from '
                   'bookkeeping keys (the stream format additionally keeps its own cross-reference stream object, which is bookkeeping), and a '
-                  'second save/load cycle on that document returns the same document again. Built from: offsets_exact and startxref_exact '
+                  'second save/load cycle on that document returns the same document again (C01_full_slack: with ONE size hypothesis, on the first '
+                  'file: |save d| + slack < 2^32, slack 0 for the table format and 16 for the stream format; C01_second_file_size proves that the '
+                  'file written from the reloaded document is at most that much longer). Built from: offsets_exact and startxref_exact '
                   '(byte-counter invariant, all documents), the printer/parser round trip of every object incl. streams (C14 object_rt), header / '
                   'binary mark / startxref / trailer read-back, the printed cross-reference table parsed back, and lopdf cross-reference stream '
                   'writer shown to BE the ISO 32000-1 7.5.8 encoder of Spec/XrefSpec.v at W = [1 4 2] so that C02 decoder theorem reads it back. '
@@ -793,8 +795,8 @@ MANIFEST = {
     'design_ref': 'DESIGN.md 6 C01, notes/C01.md',
     'level_note': 'Trusted: Coq kernel; translator parts SaveFmt/Lex; extraction + OCaml driver; Rust harness; f32 Display/FromStr assumptions of DESIGN 3. '
                   'Rungs 1-3 complete: C01_full is a theorem for both formats and two cycles. Hypotheses that remain: savable (data-model invariants; '
-                  'max_id need NOT bound the object numbers since the repair 19ab1a6), known_deep = false (open known finding), small_file for each of '
-                  'the two files (u32 offsets; the bound for the second file is not derived from the first), cycles_fit (stream format: one spare '
+                  'max_id need NOT bound the object numbers since the repair 19ab1a6), known_deep = false (open known finding), small_file_slack of '
+                  'the FIRST file only (u32 offsets; the bound for the second file is derived: Proofs/SaveSizeProofs.v), cycles_fit (stream format: one spare '
                   'object number for the second cycle). Loader features a saved file never uses (Length as reference, object streams, filtered '
                   'xref streams, Encrypt) are outside Model/Loader.v and tied by correspondence through Model/LoaderExt.v / LoaderEnc.v / LoaderCrypt.v '
                   '(C01_full_enc: a document whose trailer carries Encrypt is handed to the decrypt attempt exactly as reloaded; '
